@@ -141,6 +141,37 @@ def run(unit, em):
             parse_words = (fn, [n['v'] for n in fn.walk() if n['k'] == 'StringLiteral' and 'v' in n])
         if short in ('SymbolicVarAsgn::ToString',):
             pass
+    # ---- WS: one notion of whitespace across the parser's helpers (trim / read_word / contains_whitespace)
+    classes = {}
+    for fn in unit.functions:
+        if fn.body is None or 'timbuk_parser-nobison.cc' not in fn.file:
+            continue
+        for n in fn.walk():
+            if n['k'] == 'DeclRefExpr' and n.get('dk') == 'func' and n.get('n') in ('isspace', 'isblank'):
+                classes.setdefault('std::' + n['n'], []).append((fn, n))
+            if n['k'] == 'CXXMemberCallExpr' and method_name(n) in ('find_first_not_of', 'find_last_not_of', 'find_first_of', 'find_last_of') and n.get('args'):
+                a = strip(n['args'][0])
+                if a is not None and a['k'] == 'DeclRefExpr':
+                    for s_ in local_sources(fn, a.get('d')):
+                        ss = strip(s_)
+                        if ss is not None and ss['k'] == 'StringLiteral':
+                            a = ss
+                if a is not None and a['k'] == 'StringLiteral' and a.get('v', '').strip(' \t\r\n\v\f') == '' and a.get('v'):
+                    classes.setdefault('set %r' % a['v'], []).append((fn, n))
+    if classes:
+        allsites = [s for v in classes.values() for s in v]
+        if len(classes) == 1:
+            k = next(iter(classes))
+            for fn, n in allsites:
+                em.ok(n, 'whitespace class in %s' % fn.q.split('::')[-1], k, 'WS')
+        else:
+            major = max(classes, key=lambda k: len(classes[k]))
+            for k, sites in classes.items():
+                for fn, n in sites:
+                    if k == major:
+                        em.ok(n, 'whitespace class in %s' % fn.q.split('::')[-1], k, 'WS')
+                    else:
+                        em.violation(n, 'whitespace class in %s' % fn.q.split('::')[-1], '%s uses %s while the other helpers use %s: a character that one helper treats as blank and another as text makes `while (!str.empty()) read_word(str)` consume nothing (hang) or splits words differently' % (fn.q.split('::')[-1], k, major), 'WS')
     # FMT within one unit is impossible for parser vs serializer (different units): emit facts, merge in finalize via records
     if ser_words:
         fn, ws = ser_words
